@@ -26,6 +26,8 @@ import (
 //	    | s:<hex|->                   string (bytes)
 //	    | S:<len>:<hh>                string of <len> copies of byte <hh>
 //	    | bin:<hex|->/<nbits>/<unit>  interp.Binary
+//	    | bin:<hex>/<nbits>/<unit>@<s>:<e>   the slice .[s:e] of that binary (made by Binary.JQValueSlice): a
+//	                                  binary of (e-s)*unit bits whose range starts at bit s*unit (directed cases only)
 //	    | A(V;V;…)  | O(key=V;…)      array / object (keys [a-z_0-9@]*, sorted)
 //	    | dv:<name>=V                 decode value <name> whose JQValueToGoJQ is V (O() for compounds)
 //
@@ -276,6 +278,9 @@ func plainPool() []any {
 		nil, true, false,
 		0, -1, 1, 3, 64, 255, 65536,
 		math.MaxInt32, math.MaxInt32 + 1, math.MaxInt64, math.MinInt64,
+		// products by 8 wrap here: 2^61 * 8 = 0, 2^60 * 8 = MinInt64 (the full set of such values is
+		// given to the modelled functions by wrap.go)
+		1 << 61, 1 << 60,
 		bigOf("9223372036854775808"), bigOf("18446744073709551616"), bigOf("-18446744073709551616"),
 		0.5, -1.5, 1e11, 1e308, -1e308, math.NaN(), math.Inf(1), math.Inf(-1),
 		"", "abc", "10", "png", "test.png", ".", "stdin", truncStrings[0], "\xff\xfe\x00", strings.Repeat("a", 1<<20),
@@ -304,6 +309,7 @@ func plainPool() []any {
 // values outside the core pool: near-duplicates of a core value's type and sign
 var nonCore = map[string]bool{
 	"n:3": true, "n:64": true, "n:65536": true, "n:2147483648": true, "b:-18446744073709551616": true,
+	"n:2305843009213693952": true, "n:1152921504606846976": true,
 	"f:-3p-1": true, "f:-inf": true, "s:3130": true, "s:2e": true, "s:746573742e706e67": true, "s:737464696e": true,
 	"O(encoding=s:737464;name=s:6d6435;prompt=s:3e20;timeout=n:-1)": true,
 	"A(n:255;n:256;n:-1;f:1p-1)": true, "O(a=O(b=O(c=null)))": true,
